@@ -328,13 +328,28 @@ def dedup : List Str → List Str
   | [] => []
   | k :: ks => k :: (dedup ks).filter (· ≠ k)
 
-/-- `txkeys`: transformed key ↦ data key (`dict(...)` over the key set: a later key wins a clash) -/
-def txKeys (rows : List Row) (rowKeysChange : Bool) : Dict :=
-  let keys := if rowKeysChange then dedup (rows.flatMap (fun r => r.map (·.1)))
-              else match rows with
-                | [] => []
-                | r :: _ => dedup (r.map (·.1))
-  fromPairs (keys.map (fun k => (txKey k, k)))
+/-- the documented keyword of a heading: only space and dash are written as '_', every other
+    character stands for itself -/
+def kwOf (k : Str) : Str := k.map (fun c => if c = ' ' ∨ c = '-' then '_' else c)
+
+/-- the key set the transformation table is built from (first row, or all rows with
+    `row_keys_change`), in first-occurrence order -/
+def keySet (rows : List Row) (rowKeysChange : Bool) : List Str :=
+  if rowKeysChange then dedup (rows.flatMap (fun r => r.map (·.1)))
+  else match rows with
+    | [] => []
+    | r :: _ => dedup (r.map (·.1))
+
+/-- `txkeys = dict((transform(key), key) for key in all_keys)` with the key SET iterated in the order
+    `keys` (hash order in CPython — a parameter here): a later key wins a clash -/
+def txKeysOf (keys : List Str) : Dict := fromPairs (keys.map (fun k => (txKey k, k)))
+
+/-- is `order` an iteration order of the key set `keys` (same elements, no repetition) -/
+def isOrderOf (order keys : List Str) : Bool :=
+  order.all (fun k => keys.contains k) && keys.all (fun k => order.contains k) && order.length == keys.length
+
+/-- `txkeys` with the key set in first-occurrence order -/
+def txKeys (rows : List Row) (rowKeysChange : Bool) : Dict := txKeysOf (keySet rows rowKeysChange)
 
 /-- split a search keyword into data key and matcher name -/
 def splitKeyword (names : List Str) (kw : Str) : Str × Str :=
@@ -362,13 +377,38 @@ def searchTerms (names : List Str) (tx : Dict) : List (Str × Str) → Option (L
     | none => none
     | some key => (searchTerms names tx rest).map ((key, m, v) :: ·)
 
-/-- `keyword_search(rows, row_keys_change=…, **kwargs)` for string search values, `parent=None` -/
-def keywordSearch (table : List (Str × Matcher)) (rows : List Row) (rowKeysChange : Bool)
+/-- `keyword_search` once the transformation table `tx` is known (computed, or taken from the cache) -/
+def keywordSearchTx (table : List (Str × Matcher)) (tx : Dict) (rows : List Row)
     (kwargs : List (Str × Str)) : List Row :=
   if kwargs.isEmpty || rows.isEmpty then [] else
-  match searchTerms (table.map (·.1)) (txKeys rows rowKeysChange) kwargs with
+  match searchTerms (table.map (·.1)) tx kwargs with
   | none => []
   | some terms => rows.filter (fun row => terms.all (fun t => keyMatch table row t.1 t.2.1 t.2.2))
+
+/-- `keyword_search(rows, row_keys_change=…, **kwargs)` for string search values, `parent=None`,
+    key set in first-occurrence order -/
+def keywordSearch (table : List (Str × Matcher)) (rows : List Row) (rowKeysChange : Bool)
+    (kwargs : List (Str × Str)) : List Row :=
+  keywordSearchTx table (txKeys rows rowKeysChange) rows kwargs
+
+/-- one call `keyword_search(rows, parent=p, **kwargs)`: `cache` = `p._transform_cache` when the
+    attribute exists, `order` = the iteration order of the key set in this call; returns the rows found
+    and the cache afterwards (the early returns for no keywords / no rows do not touch it) -/
+def keywordSearchCached (table : List (Str × Matcher)) (cache : Option Dict) (order : List Str)
+    (rows : List Row) (kwargs : List (Str × Str)) : List Row × Option Dict :=
+  if kwargs.isEmpty || rows.isEmpty then ([], cache) else
+  let tx := match cache with
+    | some tx => tx
+    | none => txKeysOf order
+  (keywordSearchTx table tx rows kwargs, some tx)
+
+/-- successive calls on the same parent -/
+def keywordSearchSeq (table : List (Str × Matcher)) (order : List Str) (rows : List Row) :
+    Option Dict → List (List (Str × Str)) → List (List Row)
+  | _, [] => []
+  | cache, kw :: rest =>
+    let r := keywordSearchCached table cache order rows kw
+    r.1 :: keywordSearchSeq table order rows r.2 rest
 
 /-! ### IniConfigFile: the dictionary view over the parsed tree -/
 
